@@ -154,6 +154,7 @@ func (w *Worker) worker(powDigest []byte, startNonce uint64, target uint, done *
 		}
 
 		// process the batch
+		simInput(buf, nonce)
 		c.Reset()
 		if err := c.Absorb(buf, consts.HashTrinarySize); err != nil {
 			return 0, err
